@@ -1288,6 +1288,9 @@ def _parse_Hamiltonian(H: Hamiltonian, n_dt: int, H_str: str) -> Tuple[Sequence[
 
     # Parse opers and convert to ndarray
     parsed_opers = util.parse_operators(opers, H_str)
+    if parsed_opers.ndim != 3:
+        # e.g. d row vectors of length d stack to a square array
+        raise ValueError(f'Expected operators in {H_str} to be two-dimensional!')
 
     if not all(hasattr(coeff, '__len__') for coeff in coeffs):
         raise TypeError(f'Expected coefficients in {H_str} to be a sequence')
